@@ -635,6 +635,30 @@ func amplification() {
 			judge(fmt.Sprintf("%s-x%d-in-two-tracks", k.name, n), data)
 		}
 	}
+	// one long track next to many short ones (memory that is the product of
+	// the longest track and the number of tracks)
+	for _, n := range []int{1000, 6000} {
+		for _, m := range []int{500, 2500} {
+			var long []byte
+			for i := 0; i < n; i++ {
+				long = append(long, 0x01, 0xC0+byte(i%16), byte(i%128))
+			}
+			long = append(long, 0x00, 0xFF, 0x2F, 0x00)
+			short := refsmf.Chunk("MTrk", []byte{0x00, 0xC1, 0x05, 0x00, 0xFF, 0x2F, 0x00})
+			for _, where := range []string{"first", "middle", "last"} {
+				data := hdr(1, uint16(m+1), 96)
+				for i := 0; i <= m; i++ {
+					if (where == "first" && i == 0) || (where == "middle" && i == m/2) || (where == "last" && i == m) {
+						data = append(data, refsmf.Chunk("MTrk", long)...)
+					}
+					if i < m {
+						data = append(data, short...)
+					}
+				}
+				judge(fmt.Sprintf("track-of-%d-events-%s-among-%d-short-tracks", n, where, m), data)
+			}
+		}
+	}
 	trk := refsmf.Chunk("MTrk", []byte{0x00, 0xFF, 0x2F, 0x00})
 	for _, declared := range []uint16{0, 1, 65535} {
 		for _, chunks := range []int{65535, 65536, 65537, 70000} {
@@ -643,6 +667,79 @@ func amplification() {
 				data = append(data, trk...)
 			}
 			judge(fmt.Sprintf("%d-track-chunks-under-a-header-declaring-%d", chunks, declared), data)
+		}
+	}
+}
+
+// poisonPairs: a file that fails inside a long payload, and straight after it
+// a valid file with long payloads of its own (buffers that are kept between
+// calls and come back unclean from an error path). Every cut point in steps
+// through three long payloads; the valid file must read as the reference
+// parser reads it.
+func poisonPairs() {
+	pay := func(n int, seed byte) []byte {
+		b := make([]byte, n)
+		for i := range b {
+			b[i] = (seed + byte(i*7)) & 0x7F
+		}
+		return b
+	}
+	mk := func(seed byte) []byte {
+		var body []byte
+		body = append(body, 0x00, 0xF0)
+		body = append(body, refsmf.VLQ(5001)...)
+		body = append(append(body, pay(5000, seed)...), 0xF7)
+		body = append(body, 0x00, 0xFF, 0x01)
+		body = append(body, refsmf.VLQ(9000)...)
+		body = append(body, pay(9000, seed+1)...)
+		body = append(body, 0x00, 0xFF, 0x7F)
+		body = append(body, refsmf.VLQ(4097)...)
+		body = append(body, pay(4097, seed+2)...)
+		body = append(body, 0x00, 0x90, 0x40, 0x7F, 0x00, 0xFF, 0x2F, 0x00)
+		return append(hdr(0, 1, 96), refsmf.Chunk("MTrk", body)...)
+	}
+	good, bad := mk(3), mk(0x55)
+	exp, err := refsmf.Parse(good, refsmf.Strict)
+	ctx.Guard(err == nil, "poison-pair file is not valid: %v", err)
+	if err != nil {
+		return
+	}
+	var sb strings.Builder
+	for _, t := range exp.Tracks {
+		for _, e := range t {
+			fmt.Fprintf(&sb, "%d:%X ", e.Delta, e.Msg)
+		}
+	}
+	want := sb.String()
+	readGood := func() string {
+		s, err := smf.ReadFrom(bytes.NewReader(good))
+		if err != nil {
+			return "error: " + err.Error()
+		}
+		var sb strings.Builder
+		for _, t := range s.Tracks {
+			for _, e := range sp.FromTrack(t) {
+				fmt.Fprintf(&sb, "%d:%X ", e.Delta, e.Msg)
+			}
+		}
+		return sb.String()
+	}
+	for rep := 0; rep < 2; rep++ {
+		for cut := 23; cut < len(bad); cut += 487 {
+			ctx.Eval()
+			engine.Catch(func() { smf.ReadFrom(bytes.NewReader(bad[:cut])) })
+			ctx.Add("poison_pairs", 1)
+			if got := readGood(); got != want {
+				i := 0
+				for i < len(got) && i < len(want) && got[i] == want[i] {
+					i++
+				}
+				if ctx.SigCount("canary:changed-by-failed-read-of-long-payload") < 3 {
+					report2("canary:changed-by-failed-read-of-long-payload", fmt.Sprintf("after a file cut at byte %d (inside a long payload) was read, a valid file with long payloads reads differently from position %d on: ...%s (expected ...%s)", cut, i, clipS(got[max(i-20, 0):], 60), clipS(want[max(i-20, 0):], 60)))
+				}
+				return
+			}
+			ctx.NontrivialN(1)
 		}
 	}
 }
@@ -814,6 +911,7 @@ func main() {
 	ctx.Jobs("substitutions", 32, func(j int) { withCanary("substitutions", func() { substitutions(j, 32) }) })
 	ctx.Jobs("deep-inputs", 1, func(int) { deepInputs() })
 	ctx.Jobs("amplification", 1, func(int) { amplification() })
+	ctx.Jobs("poison-pairs", 1, func(int) { poisonPairs() })
 	ctx.Jobs("two-prefixes", 1, func(int) { twoPrefixes() })
 	nal := len(smfgen.Tokens()) * 4
 	ctx.Jobs("truncations", nal, func(j int) { truncationFamily(j) })
@@ -846,6 +944,10 @@ func replay() {
 		ctx.Finish("replay")
 	}
 	if m["kind"] == "deep" || m["kind"] == "job" {
+		if strings.Contains(fmt.Sprint(m["what"]), "long payload") {
+			poisonPairs()
+			ctx.Finish("replay")
+		}
 		deepInputs()
 		ctx.Finish("replay")
 	}
